@@ -15,7 +15,7 @@
     mention the flag is imported from there ([upd], [seen_from], [scan_app], [reg_ok_mono], the
     root view [Ctx] / [Seen], what the primitives do to the view, [AllocPost], [Ext]); the
     relation [Rl], the Hoare logic [Hat] / [Hat0] and the three levels (expressions, conditions,
-    control) are restated for [scan false] / [reg_ok false] inside the module [I] (so that the
+    control) are restated for [scan false] / [reg_ok false] inside the module [Intended] (so that the
     names of [DefUse.v] are not shadowed for who imports both files), with the syntactic
     hypothesis threaded through the recursion; the two cases of [expr_value] that produce the
     F7 shape are excluded by it.  [fold_priority] re-brackets a chain into [EVSub] leaves of
@@ -149,7 +149,7 @@ Proof.
   destruct (fold_left _ levels _) as [v' r']. rewrite no_f7_expr_Expr. exact HF.
 Qed.
 
-Module I.
+Module Intended.
 (** ** The root view, flag [false] *)
 Definition uses_ok (s : bst) (l : list N) : Prop := forallb (reg_ok false (Seen s)) l = true.
 Definition ok_res (s : bst) (er : eres) : Prop := uses_ok s (eres_reg er).
@@ -406,6 +406,7 @@ Proof.
   - apply Gat_bind; [apply Gat_set_label_name|]. intros. apply Hat_ret. exact I.
 Qed.
 
+(** ** Facts about registers that the logic carries along *)
 Definition ResOk (r : option eres) (s : bst) : Prop := forall er, r = Some er -> ok_res s er.
 Definition ArgsOk (r : option (list eres)) (s : bst) : Prop :=
   forall l, r = Some l -> Forall (ok_res s) l.
@@ -956,7 +957,7 @@ Proof.
     pose proof (function_body_C08 _ _ _ _ _ Hf E E1) as Hs.
     unfold Ctx in Hs. rewrite Ef in Hs. exact Hs.
 Qed.
-End I.
+End Intended.
 
 (** ** The theorems *)
 
@@ -966,7 +967,7 @@ Theorem expression_reads_written : forall G fuel e s r s',
   frames s <> [] -> expression G fuel e s = Ok r s' ->
   (exists c, Ctx s' = Ctx s ++ c /\ scan false (Seen s) c = true) /\
   (forall er, r = Some er -> forallb (reg_ok false (Seen s')) (eres_reg er) = true).
-Proof. exact I.expression_reads_written. Qed.
+Proof. exact Intended.expression_reads_written. Qed.
 
 (** C08 as intended, outside K_F7: in every function stack of an accepted program without
     call-as-value and field-read leaves, every register that is read was written earlier in the
@@ -979,16 +980,30 @@ Proof.
     as [r|[errors roots]] eqn:E; [exfalso; eapply bodies_inl_not_ok; eauto|].
   inversion H; subst; clear H. cbn [o_errors] in Hacc. subst errors.
   unfold chk_C08. cbn [o_fns]. apply forallb_forall. apply Forall_forall.
-  destruct (I.bodies_C08 _ _ _ _ _ _ Hp E) as [[e He] HF].
+  destruct (Intended.bodies_C08 _ _ _ _ _ _ Hp E) as [[e He] HF].
   symmetry in He. apply app_eq_nil in He as [He0 _].
   apply HF; [symmetry; exact He0 | constructor].
 Qed.
 
 (** The two monitors on the same output: the intended one implies the one with the finding
-    (any output), so outside K_F7 both hold. *)
+    (any output). *)
 Lemma reg_ok_false_true sn n : reg_ok false sn n = true -> reg_ok true sn n = true.
 Proof. unfold reg_ok. cbn. rewrite Bool.orb_false_r. intros ->. reflexivity. Qed.
+
+Lemma scan_false_true : forall c sn, scan false sn c = true -> scan true sn c = true.
+Proof.
+  induction c as [|i c IH]; intros sn H; [reflexivity|].
+  cbn [scan] in *. apply Bool.andb_true_iff in H as [Hu Hc].
+  rewrite (IH _ Hc), Bool.andb_true_r.
+  rewrite forallb_forall in *. intros n Hn. apply reg_ok_false_true, Hu, Hn.
+Qed.
+
+Theorem chk_C08_false_true o : chk_C08 false o = true -> chk_C08 true o = true.
+Proof.
+  unfold chk_C08. rewrite !forallb_forall. intros H b Hb. apply scan_false_true, H, Hb.
+Qed.
 
 Print Assumptions no_f7_fold_priority.
 Print Assumptions expression_reads_written.
 Print Assumptions run_reads_written.
+Print Assumptions chk_C08_false_true.
